@@ -374,8 +374,15 @@ def finish(chk, trusted_base, level_text=None, partial_theorems=None):
         lines.append("KNOWN-FINDING: property=%s %s" % (chk.pid, k["text"]))
     if unlisted:
         v = unlisted[0]
-        path = write_replay(chk.pid, {"property": chk.pid, "kind": "failing-input", "count": len(unlisted),
-                                      "first": v, "others": unlisted[1:10],
+        by_what = {}
+        firsts = []
+        for u in unlisted:
+            key = "%s | %s" % (u.get("stream"), u.get("what"))
+            if key not in by_what:
+                firsts.append(u)
+            by_what[key] = by_what.get(key, 0) + 1
+        path = write_replay(chk.pid, {"property": chk.pid, "kind": "failing-input", "count": len(unlisted), "by_what": by_what,
+                                      "first": v, "first_of_each_kind": firsts[1:8], "others": unlisted[1:6],
                                       "how_to_replay": "./fv replay <this file>"})
         lines.append("VIOLATION property=%s replay=%s" % (chk.pid, path))
         violations = len(unlisted)
